@@ -32,7 +32,7 @@ def parse_case(line):
     ns = int(t[1])
     cfgs = [tuple(int(x) for x in t[2 + 6 * k: 8 + 6 * k]) for k in range(ns)]
     i = 2 + 6 * ns
-    ar = {"A": 1, "W": 1, "S": 6, "T": 0, "K": 2, "P": 3, "R": 2, "N": 4, "X": 3, "Q": 0}
+    ar = {"A": 1, "W": 1, "S": 6, "T": 0, "K": 2, "P": 3, "R": 2, "N": 4, "D": 2, "Q": 0}
     ev = []
     while i < len(t):
         n = ar.get(t[i])
@@ -122,9 +122,11 @@ def impl_oracle(line, out):
         if it[1] == "?":
             problems.append("unparsable item %s" % it[2][0])
     live = {}       # (sess, mid) -> list of records
+    fog = set()     # keys (sess, mid) whose messages the trace can no longer tell apart
     closed = []
     relaxed = False
-    stats = {"retx": 0, "acked": 0, "rst": 0, "giveup": 0, "sent": 0}
+    stats = {"retx": 0, "acked": 0, "rst": 0, "giveup": 0, "sent": 0, "disc": 0}
+    dead = set()
     now = 0
     last_tick = None
     last_wait = 0
@@ -163,6 +165,43 @@ def impl_oracle(line, out):
                 now = max(now, last_tick + last_wait + int(e[1]))
             continue
         fired = its
+        if k in ("S", "K", "P", "R", "N") and int(e[1]) % ns in dead:
+            if its:
+                problems.append("event on a disconnected session produced %s" % [i[1] for i in its])
+            continue
+        if k == "D":
+            # coap_session_disconnected: every pending message of the session ends with exactly one
+            # NACK call carrying the given reason; nothing pending: one call without PDU, mid 0
+            s, reason = int(e[1]) % ns, int(e[2])
+            if s in dead:
+                continue
+            dead.add(s)
+            foggy = any(key[0] == s for key in fog)
+            want = sorted(r["mid"] for key, v in live.items() if key[0] == s for r in v)
+            got = []
+            for it in its:
+                if it[1] != "nk":
+                    problems.append("disconnect produced %s" % it[1])
+                    continue
+                t, s2, r2, m2, has = [int(x) for x in it[2]]
+                if (t, s2, r2) != (now, s, reason):
+                    problems.append("disconnect NACK reports %s, expected t=%d sess=%d reason=%d" % (it[2], now, s, reason))
+                if has:
+                    got.append(m2)
+                elif want or m2 != 0:
+                    problems.append("disconnect: NACK without PDU (mid %d) although %s pending" % (m2, want))
+            if not foggy:
+                if sorted(got) != want:
+                    problems.append("disconnect of session %d: NACK calls for mids %s, pending were %s" % (s, sorted(got), want))
+                if not want and len(its) != 1:
+                    problems.append("disconnect of an idle session: %d NACK calls" % len(its))
+            for key in [key for key in live if key[0] == s]:
+                for r in live.pop(key):
+                    r["out"] = "disc"
+                    closed.append(r)
+                    stats["disc"] += 1
+            fog = {key for key in fog if key[0] != s}
+            continue
         if k == "S":
             s, mid, code = int(e[1]) % ns, int(e[2]), int(e[3])
             stats["sent"] += 1
@@ -176,23 +215,47 @@ def impl_oracle(line, out):
             if int(its[1][2][0]) != mid:
                 problems.append("coap_send returned %s for mid %d" % (its[1][2][0], mid))
             rec = {"sess": s, "mid": mid, "bytes": b, "tx": [t], "cfg": cfgs[s], "T": None,
-                   "code": code, "out": None, "taint": False}
+                   "code": code, "out": None, "taint": False, "tok": e[4].lower()}
+            if (s, mid) in fog:
+                continue
             l = live.setdefault((s, mid), [])
             l.append(rec)
             if len(l) > 1:
-                for x in l:
-                    x["taint"] = True
+                # a second pending message with the same session and mid (application error; the
+                # machine copes, C06_one_outcome is per message): the trace cannot tell the two
+                # apart, nothing is claimed about this key from here on
+                fog.add((s, mid))
+                live.pop((s, mid), None)
             continue
         if k in ("K", "P", "R", "N", "X"):
             s, mid = int(e[1]) % ns, int(e[2])
             l = live.get((s, mid), [])
             if k == "K" and any(is_request(r["code"]) for r in l):
                 relaxed = True
-            if k in ("K", "P") and l:
-                r = l.pop(0)       # (if several are pending it is not known which one: all are tainted)
+            if k in ("K", "P", "R") and (len(l) > 1 or (s, mid) in fog):
+                # several pending messages with this session and mid: the first one IN QUEUE ORDER
+                # goes and the trace does not say which that is - from here on nothing is claimed
+                # about the messages with this key
+                fog.add((s, mid))
+                live.pop((s, mid), None)
+                l = []
+            if k in ("K", "P") and l:   # (N is handled by token below)
+                r = l.pop(0)
                 r["out"] = "acked"
                 closed.append(r)
                 stats["acked"] += 1
+            if k == "N":
+                # a NON response: implicit acknowledgement of every pending message of the session
+                # with its token (RFC 7252 5.2.2); its mid is the peer's and must not matter
+                tok = e[4].lower()
+                for key in list(live):
+                    if key[0] != s:
+                        continue
+                    for r in [x for x in live[key] if x["tok"] == tok]:
+                        live[key].remove(r)
+                        r["out"] = "acked"
+                        closed.append(r)
+                        stats["acked"] += 1
             if k == "R":
                 nk = [i for i in its if i[1] == "nk" and int(i[2][2]) == 2]
                 fired = [i for i in its if not (i[1] == "nk" and int(i[2][2]) == 2)]
@@ -202,7 +265,7 @@ def impl_oracle(line, out):
                     t, ss, _, m2, has = [int(x) for x in nk[0][2]]
                     if (t, ss, m2) != (now, s, mid):
                         problems.append("NACK(RST) reports %s, expected t=%d sess=%d mid=%d" % (nk[0][2], now, s, mid))
-                    if bool(has) != bool(l):
+                    if (s, mid) not in fog and bool(has) != bool(l):
                         problems.append("NACK(RST) for mid %d: sent PDU %s but message %s" %
                                         (mid, "given" if has else "missing", "pending" if l else "not pending"))
                 if l:
@@ -219,6 +282,9 @@ def impl_oracle(line, out):
                 if t != now:
                     problems.append("transmission stamped %d during an event at %d" % (t, now))
                 r = rec_for(s2, mid2) if mid2 is not None else None
+                if (s2, mid2) in fog:
+                    stats["retx"] += 1
+                    continue
                 if mid2 is not None and not live.get((s2, mid2)):
                     problems.append("mid %d on session %d transmitted although it is not pending "
                                     "(after its outcome, or never accepted)" % (mid2, s2))
@@ -240,6 +306,9 @@ def impl_oracle(line, out):
                     problems.append("unexpected NACK %s" % f)
                     continue
                 l = live.get((s2, mid2), [])
+                if (s2, mid2) in fog:
+                    stats["giveup"] += 1
+                    continue
                 if not l:
                     problems.append("NACK TOO_MANY_RETRIES for mid %d which is not pending" % mid2)
                     continue
@@ -259,6 +328,8 @@ def impl_oracle(line, out):
                 if t != now:
                     problems.append("prepare stamped %d at %d" % (t, now))
                 npend = sum(len(v) for v in live.values())
+                if fog:
+                    continue
                 if hd < 0:
                     if npend:
                         problems.append("nothing queued at %d although %d message(s) are pending" % (t, npend))
@@ -282,13 +353,13 @@ def impl_oracle(line, out):
                 t = int(f[0])
                 ents = [] if f[1] == "-" else [tuple(int(x) for x in z.split("/")) for z in f[1].split(",")]
                 want = sorted((r["sess"], r["mid"]) for v in live.values() for r in v)
-                got = sorted((s2, m2) for (_, s2, m2, _) in ents)
+                got = sorted((s2, m2) for (_, s2, m2, _) in ents if (s2, m2) not in fog)
                 if want != got:
                     problems.append("queue holds %s, pending messages are %s" % (got, want))
                 if [d for (d, _, _, _) in ents] != sorted(d for (d, _, _, _) in ents):
                     problems.append("queue not ordered by deadline: %s" % ents)
                 for (d, s2, m2, cnt) in ents:
-                    r = rec_for(s2, m2)
+                    r = rec_for(s2, m2) if (s2, m2) not in fog else None
                     if r is None:
                         continue
                     if cnt != len(r["tx"]) - 1:
@@ -386,6 +457,13 @@ def main(run):
         "NSTART hold-back is C08's: drivers keep at most NSTART CONs per session in flight",
         "allocation never fails (C18)"]
     run.prove()
+    if run.tier != "quick" and getattr(run, "proof_broken", None) is None:
+        # independent re-check of the compiled property file and everything it depends on
+        rc, out = vlib.sh(["coqchk", "-silent", "-o", "-Q", vlib.COQ, "LibcoapV", "LibcoapV.Properties_C06"],
+                          cwd=vlib.COQ, timeout=1500, check=False)
+        run.cov["coqchk"] = {"rc": rc, "tail": out.strip().splitlines()[-6:]}
+        if rc != 0:
+            run.violation("coqchk rejects Properties_C06.vo", out[-4000:], tag="coqchk", no_input=True)
     model = vlib.build_model()
     drv = vlib.build_driver("h_sched", ["h_sched.c"], wraps=WRAPS)
     r = tie.rng_for(run, "c06")
@@ -400,10 +478,10 @@ def main(run):
     cases = [(None, ln) for ln in corpus if ln.startswith("c06 ")]
     leaf_corpus = [ln for ln in corpus if not ln.startswith("c06 ")]
     gens = []
-    n_sched = 150 if quick else 3000
-    n_multi = 900 if quick else 25000
-    n_big = 60 if quick else 2500
-    n_ns1 = 150 if quick else 4000
+    n_sched = 300 if quick else 6000
+    n_multi = 2500 if quick else 90000
+    n_big = 150 if quick else 8000
+    n_ns1 = 400 if quick else 12000
     n_long = 12 if quick else 200
     for _ in range(n_sched):
         gens.append(G.gen_schedule_case(r))
@@ -423,6 +501,8 @@ def main(run):
         gens.append(G.gen_nstart1_case(r))
     for _ in range(n_long):
         gens.append(G.gen_long_case(r))
+    for _ in range(400 if quick else 15000):
+        gens.append(G.gen_cancel_case(r))
     for _ in range(40 if quick else 1000):
         gens.append(G.gen_separate_case(r))
     for c in gens:
@@ -431,7 +511,8 @@ def main(run):
     om, oc, crashes = tie.run_both(model, drv, lines)
     run.cov["driver_crashes"] = len(crashes)
     nbad = 0
-    agg = {"retx": 0, "acked": 0, "rst": 0, "giveup": 0, "sent": 0, "pending_at_end": 0}
+    oracle_self = []
+    agg = {"retx": 0, "acked": 0, "rst": 0, "giveup": 0, "sent": 0, "disc": 0, "pending_at_end": 0}
     for i, ln in enumerate(lines):
         mo, co = om[i], oc[i]
         c = cases[i][0]
@@ -439,7 +520,8 @@ def main(run):
         probs, facts = impl_oracle(ln, co) if not co.startswith(("CRASH", "ERROR", "<")) else (["driver: " + co[:80]], {})
         for k in agg:
             agg[k] += facts.get(k, 0)
-        nontriv = facts.get("retx", 0) >= 1 and (facts.get("acked", 0) + facts.get("rst", 0) + facts.get("giveup", 0)) >= 1
+        nontriv = facts.get("retx", 0) >= 1 and (facts.get("acked", 0) + facts.get("rst", 0) +
+                                                 facts.get("giveup", 0) + facts.get("disc", 0)) >= 1
         run.count(ln, nontriv)
         run.hist("kind", kind)
         run.hist("sessions", ln.split()[1])
@@ -449,6 +531,15 @@ def main(run):
             run.sample({"case": ln[:400], "impl": co[:400]})
         bad = None
         no_input = False
+        if probs and mo == co:
+            # The implementation did exactly what the model does on this case, and for the model
+            # every clause the oracle evaluates is a theorem (C06_one_outcome, C06_spacing,
+            # C06_deadline_law, C06_wait_sound, C06_timeout_range): a complaint here is a defect of
+            # the oracle, not of libcoap.  It is recorded, never reported as a violation.
+            oracle_self.append({"case": ln[:3000], "oracle": probs[0]})
+            vlib.log("note (C06): oracle complains about a trace that equals the model's: %s [%s]" %
+                     (probs[0], ln[:120]))
+            probs = []
         if probs:
             bad = "property fails on the implementation: " + probs[0]
         elif co.startswith("CRASH"):
@@ -477,7 +568,28 @@ def main(run):
                 run.violation(bad, "case: %s\nmodel: %s\nimpl : %s\noracle on impl: %s\n(original case: %s)\n" %
                               (small, a[0], b[0], p2 or "holds", ln), tag="tie%d" % nbad,
                               no_input=no_input and not p2)
+    # ---- thorough: the same lines through an ASan+UBSan build of library and driver
+    if not quick:
+        try:
+            adrv = vlib.build_driver("h_sched", ["h_sched.c"], variant="asan", wraps=WRAPS)
+            sub = lines[:len(corpus)] + lines[len(corpus)::7][:4000]
+            ao, acr = vlib.run_lines_robust(adrv, sub, timeout=1500,
+                                            env={"ASAN_OPTIONS": "detect_leaks=0:abort_on_error=1",
+                                                 "UBSAN_OPTIONS": "halt_on_error=1"})
+            base = dict(zip(lines, oc))
+            nas = 0
+            for ln, o in zip(sub, ao):
+                if o != base.get(ln):
+                    nas += 1
+                    if nas <= 2:
+                        run.violation("sanitizer build behaves differently or traps: %s" % o[:100],
+                                      "case: %s\nasan: %s\nbase: %s\nstderr: %s\n" %
+                                      (ln, o, base.get(ln), acr[0][2] if acr else ""), tag="asan%d" % nas)
+            run.cov["asan"] = {"cases": len(sub), "differences": nas, "crashes": len(acr)}
+        except vlib.BuildError as e:
+            run.cov["asan"] = {"skipped": str(e)[:200]}
     run.cov["impl_totals"] = agg
+    run.cov["oracle_self_check_failures"] = oracle_self[:5]
     run.cov["drop_subset_cases"] = len(drops)
 
     # ---- leaf sweep 1: coap_calc_timeout, all 256 bytes x settings grid
